@@ -11,3 +11,13 @@ def capfirst(text):
         return text
 
     return text[0].upper() + text[1:]
+
+
+def pyblock(text):
+    """Escape free-form text for the body of a triple-quoted Python string literal"""
+    return text.replace('\\', '\\\\').replace('"', '\\"').replace('\0', '\\x00')
+
+
+def pyline(text):
+    """Escape free-form text for the body of a one-line double-quoted Python string literal"""
+    return pyblock(text).replace('\n', '\\n').replace('\r', '\\r')
